@@ -16,6 +16,8 @@ ASSUMPTIONS = [
 ]
 SPEC = {
     'quick': [('K9s', 'liq', 4),
+              ('K35', 'cross2', 3),
+              ('K36', 'liq', 4),
               ('K26', 'liq', 3),
               ('K28', 'liq', 4),
               ('K29', 'liq', 3),
